@@ -132,21 +132,24 @@ def c12(ctx):
         ok = True
         why = ""
         for field in ("line", "line_start"):
-            fw = [(f_, bi, s) for f_, bi, fld, s in ws if fld == field and f_ is fn]
+            fw = [(fn, bi, vals) for bi, vals in _line_field_writes(F, fn, field)]
             if not fw:
                 ok, why = False, "%s writes only one of the two line fields" % path
                 continue
-            # the last write on every path to the return restores a value read from the field at entry
+            # the last write on every path to the return restores a value read from the field at entry (a copy of the field, or what
+            # mem::replace / mem::take handed back when the field was overwritten)
             restoring = []
-            for f_, bi, s in fw:
-                if "use" in s.get("rv", {}):
-                    for d, p in origins(fn, s["rv"]["use"]):
+            for f_, bi, vals in fw:
+                for v in vals:
+                    for d, p in origins(fn, v):
                         if d[0] == "param" and d[1] == 1 and p[-1:] == (field,):
+                            restoring.append(bi)
+                        if d[0] == "call" and callee_def(fn.term(d[1])) in ("std::mem::replace", "std::mem::take") and _refs_field(fn, fn.term(d[1])["args"][0], field):
                             restoring.append(bi)
             if not restoring:
                 ok, why = False, "%s changes Lexer.%s and does not restore it" % (path, field)
                 continue
-            non_restoring = [bi for f_, bi, s in fw if bi not in restoring]
+            non_restoring = [bi for f_, bi, vals in fw if bi not in restoring]
             for nb in non_restoring:
                 if common.path_to_return_avoiding(fn, restoring, start=nb, through_errors=True):
                     ok, why = False, "a path through %s returns with Lexer.%s still changed" % (path, field)
@@ -171,10 +174,9 @@ def c12(ctx):
             okf = True
             why = ""
             for field, src in (("line", "newlines"), ("line_start", "new_line_start")):
-                ws = [(b2, s) for f_, b2, kind, s in common.field_accesses(F, LEXER, field) if f_ is fn and kind == "write" and fn.dominates(b2, bi)]
+                ws = [(b2, vals) for b2, vals in _line_field_writes(F, fn, field) if fn.dominates(b2, bi)]
                 dep = False
-                for b2, s in ws:
-                    ops = rvalue_operands(s["rv"]) if "rv" in s else []
+                for b2, ops in ws:
                     for o in ops:
                         from .c03 import kind_deep
                         if any(dd[0] == "param" and dd[1] in pend and (src in pp) for dd, pp in kind_deep(fn, o)):
@@ -245,6 +247,27 @@ def c12(ctx):
                 rep.ob("C12.R4", "provenance::%s::%s#%d" % (fn.path, fname, bi), ok,
                        "" if ok else "%s builds a LexResult whose %s %s" % (fn.path, fname, why), fn.loc(s["line"]), how="literal or '\\n'-guarded counter")
     rep.floor("C12.R4", n4, 5, "LexResult constructions")
+
+
+def _refs_field(fn, operand, field):
+    """is the operand a reference to self.<field> taken in this body (possibly reborrowed)?"""
+    fs = common.ref_target_fields(fn, operand)
+    return bool(fs) and fs[-1].get("name") == field
+
+
+def _line_field_writes(F, fn, field):
+    """[(block, [operands the written value is computed from])] for the writes of Lexer.<field> in this body: assignments to the
+    field, and mem::replace(&mut self.<field>, v)"""
+    out = []
+    for f_, bi, kind, s in common.field_accesses(F, LEXER, field):
+        if f_ is not fn:
+            continue
+        if kind == "write" and "rv" in s:
+            out.append((bi, list(rvalue_operands(s["rv"]))))
+    for bi, t in fn.calls():
+        if callee_def(t) == "std::mem::replace" and len(t["args"]) == 2 and _refs_field(fn, t["args"][0], field):
+            out.append((bi, [t["args"][1]]))
+    return out
 
 
 def _line_provenance(F, fn, operand, fname):
